@@ -131,6 +131,66 @@ func checkRawWord(p *core.Program, r *core.Report, fn *ssa.Function, rule string
 				"the raw word may only be formed on the edge where the read reported no error")
 		}
 	}
+	// every word read is handed out: the read is not repeated, and whether the word is returned does
+	// not depend on the word (a "health test" that discards some values makes the others likelier)
+	if l := core.InnermostLoop(core.Loops(fn), read.Block()); l != nil {
+		r.Fail(rule, name, "the CSPRNG read is executed once per call", p.InstrPos(read), "the read sits in a loop: a word can be read and thrown away")
+	} else {
+		r.Pass(rule, name, "the CSPRNG read is executed once per call", p.InstrPos(read), "")
+	}
+	derived := map[ssa.Value]bool{}
+	var work []ssa.Value
+	add := func(v ssa.Value) {
+		if v != nil && !derived[v] {
+			derived[v] = true
+			work = append(work, v)
+		}
+	}
+	for _, ref := range core.Referrers(arr) {
+		switch x := ref.(type) {
+		case *ssa.IndexAddr:
+			add(x)
+		case *ssa.Slice:
+			if ssa.Value(x) != buf {
+				add(x)
+			}
+		}
+	}
+	if sl, ok := buf.(*ssa.Slice); ok {
+		for _, ref := range core.Referrers(sl) {
+			if c, ok := ref.(*ssa.Call); ok && c != read && !core.IsBuiltin(c, "len") && !core.IsBuiltin(c, "cap") {
+				add(c)
+			}
+		}
+	}
+	if mk, ok := arr.(*ssa.MakeSlice); ok {
+		for _, ref := range core.Referrers(mk) {
+			if c, ok := ref.(*ssa.Call); ok && c != read && !core.IsBuiltin(c, "len") && !core.IsBuiltin(c, "cap") {
+				add(c)
+			}
+		}
+	}
+	for len(work) > 0 {
+		v := work[len(work)-1]
+		work = work[:len(work)-1]
+		for _, ref := range core.Referrers(v) {
+			if rv, ok := ref.(ssa.Value); ok {
+				if c, isCall := rv.(*ssa.Call); isCall && c == read {
+					continue
+				}
+				add(rv)
+			}
+		}
+	}
+	for _, ret := range core.Returns(fn) {
+		bad := ""
+		for _, g := range core.Guards(ret.Block()) {
+			if derived[g.Cond] {
+				bad = core.Describe(g.Cond)
+			}
+		}
+		r.Check(bad == "", rule, name, "whether the word is returned does not depend on the word", p.InstrPos(ret), "return is conditional on "+bad)
+	}
 	// no other store into the buffer
 	stores := 0
 	for _, ref := range core.Referrers(arr) {
